@@ -4,11 +4,13 @@
 #![allow(deprecated)]
 
 mod env;
+mod parse;
 
 fn main() {
     let mode = std::env::args().nth(1).unwrap_or_default();
     match mode.as_str() {
         "env" => vpharness::serve(env::handle),
+        "parse" => vpharness::serve(parse::handle),
         other => {
             eprintln!("vpmon: unknown mode {other:?}");
             std::process::exit(2);
